@@ -117,23 +117,30 @@ func (j *Joe) Subscribe(ctx context.Context, sub Subscription) error {
 	j.init()
 
 	done := make(chan error, 1)
+	verifHook("sub.enter", sub.Client, done)
 
 	select {
 	case <-j.done:
+		verifHook("sub.closedSeen", done, nil)
 		return ErrProviderClosed
 	case j.subscription <- subscription{done: done, Subscription: sub}:
+		verifHook("sub.handed", done, nil)
 	}
 
 	select {
 	case err := <-done:
+		verifHook("sub.gotDone", done, err)
 		return err
 	case <-ctx.Done():
+		verifHook("sub.ctxSeen", done, nil)
 	}
 
 	select {
 	case err := <-done:
+		verifHook("sub.gotDone2", done, err)
 		return err
 	case j.unsubscription <- done:
+		verifHook("sub.unsubHanded", done, nil)
 		return nil
 	}
 }
@@ -160,13 +167,16 @@ func (j *Joe) Publish(msg *Message, topics []string) error {
 	pub := publishedMessage{replayerErr: errs}
 	pub.message = msg
 	pub.topics = topics
+	verifHook("pub.enter", msg, errs)
 
 	// Waiting on done ensures Publish doesn't block the caller goroutine
 	// when Joe is stopped and implements the required Provider behavior.
 	select {
 	case j.message <- pub:
+		verifHook("pub.handed", msg, errs)
 		return <-errs
 	case <-j.done:
+		verifHook("pub.closedSeen", msg, errs)
 		return ErrProviderClosed
 	}
 }
@@ -180,15 +190,20 @@ func (j *Joe) Shutdown(ctx context.Context) (err error) {
 
 	defer func() {
 		if r := recover(); r != nil {
+			verifHook("shut.recovered", ctx, nil)
 			err = ErrProviderClosed
 		}
 	}()
 
+	verifHook("shut.enter", ctx, nil)
 	close(j.done)
+	verifHook("shut.closedDone", ctx, nil)
 
 	select {
 	case <-j.closed:
+		verifHook("shut.sawClosed", ctx, nil)
 	case <-ctx.Done():
+		verifHook("shut.ctxSeen", ctx, nil)
 		err = ctx.Err()
 	}
 
@@ -203,6 +218,7 @@ func (j *Joe) removeSubscriber(sub subscriber) {
 	}
 	delete(j.subscribers, sub)
 	close(sub)
+	verifHook("loop.removed", sub, nil)
 }
 
 func (j *Joe) start(replay Replayer) {
@@ -214,6 +230,7 @@ func (j *Joe) start(replay Replayer) {
 	for {
 		select {
 		case msg := <-j.message:
+			verifHook("loop.msg", msg.message, msg.replayerErr)
 			if replay != nil {
 				m, err := tryPut(msg.messageWithTopics, &replay)
 				if _, isPanic := err.(replayPanic); err != nil && !isPanic { //nolint:errorlint // it's our error
@@ -224,8 +241,10 @@ func (j *Joe) start(replay Replayer) {
 				} else if m != nil {
 					msg.message = m
 				}
+				verifHook("loop.put", msg.message, err)
 			}
 			close(msg.replayerErr)
+			verifHook("loop.errsClosed", msg.message, msg.replayerErr)
 
 			for done, sub := range j.subscribers {
 				if topicsIntersect(sub.Topics, msg.topics) {
@@ -236,14 +255,18 @@ func (j *Joe) start(replay Replayer) {
 
 					if err != nil {
 						done <- err
+						verifHook("loop.errPlaced", done, err)
 						j.removeSubscriber(done)
 					}
 				}
 			}
+			verifHook("loop.fanoutDone", msg.message, nil)
 		case sub := <-j.subscription:
+			verifHook("loop.sub", sub.Client, sub.done)
 			var err error
 			if replay != nil {
 				err = tryReplay(sub.Subscription, &replay)
+				verifHook("loop.replay", sub.done, err)
 			}
 
 			// NOTE(tmaxmax): Right now panics are not handled in any way
@@ -255,12 +278,16 @@ func (j *Joe) start(replay Replayer) {
 			if _, isPanic := err.(replayPanic); err != nil && !isPanic { //nolint:errorlint // it's our error
 				sub.done <- err
 				close(sub.done)
+				verifHook("loop.rejected", sub.done, err)
 			} else {
 				j.subscribers[sub.done] = sub.Subscription
+				verifHook("loop.registered", sub.done, nil)
 			}
 		case sub := <-j.unsubscription:
+			verifHook("loop.unsub", sub, nil)
 			j.removeSubscriber(sub)
 		case <-j.done:
+			verifHook("loop.done", nil, nil)
 			return
 		}
 	}
@@ -270,6 +297,7 @@ func (j *Joe) closeSubscribers() {
 	for done := range j.subscribers {
 		j.removeSubscriber(done)
 	}
+	verifHook("loop.allClosed", nil, nil)
 }
 
 func tryReplay(sub Subscription, replay *Replayer) (err error) { //nolint:gocritic // intended
